@@ -330,17 +330,17 @@ theorem recovery_copy_out (s s' : St) (uids : List Nat) (dst : String) (r : Copy
 
 /-- **MOVE out of the recovery mailbox**: answered OK, every announced destination UID is in the
     destination and exactly the selected messages left the recovery mailbox; otherwise the recovery
-    mailbox is unchanged (a failed MOVE loses nothing: the rollback restores it).  The source UIDs
-    of the COPYUID are the selected ones — or none at all when fewer destination UIDs than selected
-    messages are reported (some were already in the destination): `moveSrcUids`, witness
-    `move_out_partly_deduped_copyuid`. -/
+    mailbox is unchanged (a failed MOVE loses nothing: the rollback restores it).  The COPYUID
+    carries all selected source UIDs — or there is none at all (a plain OK) when not every selected
+    message got a destination UID because some were already in the destination (`copyUidItem`,
+    witness `move_out_partly_deduped_no_copyuid`). -/
 theorem recovery_move_out (s s' : St) (uids : List Nat) (dst : String) (r : CopyRes)
     (h : move s recName uids dst = (r, s')) :
     ((∀ su du, r ≠ .ok su du) → recMsgs s' = recMsgs s) ∧
     ∀ su du, r = .ok su du →
       (∃ b', getBox s'.db dst = some b' ∧ ∀ u ∈ du, ∃ id, (u, id) ∈ b'.msgs) ∧
       ∃ bs, getBox s.db recName = some bs ∧
-        (su = (selectUids bs uids).map (·.1) ∨ (su = [] ∧ du.length ≠ (selectUids bs uids).length)) ∧
+        (su = (selectUids bs uids).map (·.1) ∨ (su = [] ∧ du = [])) ∧
         recMsgs s' = (recMsgs s).filter (fun p => !((selectUids bs uids).map (·.2)).contains p.2) :=
   move_out_spec h
 
@@ -386,17 +386,21 @@ theorem deduped_into_third_mailbox_arrives :
     recMsgs r.2 = [] := by
   decide
 
-/-- the COPYUID of a MOVE out of the recovery mailbox of two messages of which one is already in
-    the destination: one destination UID, and an EMPTY source set (`moveSrcUids`; the server sends
-    `[COPYUID v  2]`).  Both messages are in the destination.
+/-- MOVE and COPY out of the recovery mailbox of two messages of which one is already in the
+    destination (de-duplicated): source and destination UIDs cannot be paired, the answer is a plain
+    OK without COPYUID (`copyUidItem`) — and both messages are in the destination.
     Replayed on the real server: corpus/C20/move-partly-deduped.txt. -/
-theorem move_out_partly_deduped_copyuid :
-    let a : Lit := { hv := 1, uv := 1 }
-    let b : Lit := { hv := 2, uv := 1 }
-    let r := run id (init { create := [.fail, .fail, .ok, .dup, .ok] })
-      [.append "INBOX" a, .append "INBOX" b, .append "INBOX" a, .move recName [1, 2] "INBOX"]
-    r.1 = [.append (.rejected .remote false), .append (.rejected .remote false), .append (.ok 1), .copy (.ok [] [2])] ∧
-    ((getBox r.2.db "INBOX").map (·.msgs)).map (·.length) = some 2 ∧ recMsgs r.2 = [] := by
+theorem move_out_partly_deduped_no_copyuid :
+    let m (n : Nat) : Lit := { hv := n, uv := 1 }
+    let r := run id (init { create := [.fail, .fail, .ok, .dup, .ok, .dup, .ok, .fail, .fail, .ok, .dup, .ok] })
+      [.create "other", .append "INBOX" (m 1), .append "INBOX" (m 2), .append "INBOX" (m 1), .copy recName [1, 2] "INBOX",
+       .move recName [1, 2] "other", .append "INBOX" (m 3), .append "INBOX" (m 4), .append "other" (m 3),
+       .move recName [3, 4] "other"]
+    r.1 = [.status none, .append (.rejected .remote false), .append (.rejected .remote false), .append (.ok 1),
+           .copy (.ok [] []), .copy (.ok [1, 2] [1, 2]), .append (.rejected .remote false), .append (.rejected .remote false),
+           .append (.ok 3), .copy (.ok [] [])] ∧
+    ((getBox r.2.db "INBOX").map (·.msgs)).map (·.length) = some 2 ∧
+    ((getBox r.2.db "other").map (·.msgs)).map (·.length) = some 4 ∧ recMsgs r.2 = [] := by
   decide
 
 /-- **A recovered message can be copied out**: if the remote and the storage accept the next calls,
